@@ -4,7 +4,8 @@
    Kept apart from Properties/C04.v so that the cone of the other C04 theorems does not depend on the .p8 stack. *)
 From PV Require Import Base.Prelude Spec.P8Format Spec.P8FileSpec Model.P8File
   Proofs.P8FileWrite Proofs.P8FileRoundtrip Model.Compress Model.P8Png Proofs.CompressProofs Proofs.P8PngProofs
-  Proofs.ChainProofs.
+  Proofs.ChainProofs
+  Generated.T_lexer Model.Lexer Model.EchoWriter Proofs.LexerChunk Proofs.EchoStable Proofs.P8FileLua Proofs.ChainLexer.
 
 Section C04Chain.
 Variable lua : Type.
@@ -52,3 +53,97 @@ Theorem C04_p8_png_p8 : forall (c0 : P8File.cart lua) l0 l1 img l2 l20,
 Proof. exact (chain lua lua_from_lines lua_to_lines lua_empty). Qed.
 End C04Chain.
 Print Assumptions C04_p8_png_p8.
+
+(* The same with the Lua object instantiated by the lexer model (Model/Lexer.v, regenerated tables) and the echo
+   writer (Model/EchoWriter.v), every lexer-stack hypothesis discharged (Proofs/ChainLexer.v, from C06's fixed-point
+   theorems C06_echo_idempotent(_lf), C06_echo_chunks_nonempty, C06_echo_chunks_end_lf): for every cart whose Lua
+   object came out of the lexer and whose code text contains no carriage return, has no line reading as a section
+   header, no NUL byte and fits the cartridge: the .p8 is written and read back, the .p8.png pixel rows are written
+   over any 160x205 RGBA label image (upper six bits kept) and read back, the second .p8 is written and read
+   back - each of the three readings re-lexes successfully (no hypothesis) - and the final cart has the data
+   regions and version of the first reading; its code text is the original echoed text with a final newline
+   supplied (plain storage in the image adds one more newline). *)
+Theorem C04_p8_png_p8_lexer : forall (c0 : lex_cart) img,
+  P8FileWrite.wf_cart (list tok) echo c0 -> from_lexer c0 ->
+  let T0 := concat (echo (P8File.c_lua c0)) in
+  let t1 := supply_nl T0 in
+  no_cr T0 = true -> code_in_format T0 = true ->
+  P8File.c_version c0 < 256 -> wf_img img -> fits t1 -> no_nul T0 ->
+  exists l1 l2 l3 file1 rows file2,
+    let c1 := norm_cart (list tok) c0 l1 in
+    let c2 := cart2 c0 l2 in
+    let c3 := norm_cart (list tok) c2 l3 in
+    lex_write c0 = Ok file1 /\ lex_read file1 = Ok c1 /\
+    write_png_pixels (png_cart_of (list tok) echo c1) 4 img = Ok rows /\ upper6 rows = upper6 img /\
+    (pc' <- read_png_pixels 160 205 4 rows ;; game_of_png (list tok) model_lex pc') = Ok c2 /\
+    lex_write c2 = Ok file2 /\ lex_read file2 = Ok c3 /\
+    concat (echo l1) = t1 /\
+    concat (echo l2) = t1 ++ (if is_compressed t1 then [] else [10]) /\
+    concat (echo l3) = concat (echo l2) /\
+    P8File.c_gfx c3 = P8File.c_gfx c1 /\ P8File.c_map c3 = P8File.c_map c1 /\
+    P8File.c_gff c3 = P8File.c_gff c1 /\ P8File.c_music c3 = P8File.c_music c1 /\
+    P8File.c_sfx c3 = P8File.c_sfx c1 /\ P8File.c_version c3 = P8File.c_version c1.
+Proof. exact chain_lexer. Qed.
+Print Assumptions C04_p8_png_p8_lexer.
+
+(* With carriage returns in the code the .p8.png reader lexes a DIFFERENT text (CR replaced by a space): that the
+   lexer accepts it, and the side conditions on what it yields, stay hypotheses; everything else is discharged
+   (no newline token of the first cart may be a lone CR - always so for sources of the reference dialect). *)
+Theorem C04_p8_png_p8_lexer_cr : forall (c0 : lex_cart) img l2,
+  P8FileWrite.wf_cart (list tok) echo c0 -> from_lexer c0 -> no_lone_cr_newline (P8File.c_lua c0) ->
+  let T0 := concat (echo (P8File.c_lua c0)) in
+  let t1 := supply_nl T0 in
+  code_in_format T0 = true ->
+  P8File.c_version c0 < 256 -> wf_img img -> fits t1 -> no_nul T0 ->
+  model_lex [norm_code t1 (is_compressed t1)] = Ok l2 ->
+  Forall (Forall byte) (echo l2) -> no_lone_cr_newline l2 -> code_in_format (concat (echo l2)) = true ->
+  exists l1 l3 file1 rows file2,
+    let c1 := norm_cart (list tok) c0 l1 in
+    let c2 := cart2 c0 l2 in
+    let c3 := norm_cart (list tok) c2 l3 in
+    lex_write c0 = Ok file1 /\ lex_read file1 = Ok c1 /\ concat (echo l1) = t1 /\
+    write_png_pixels (png_cart_of (list tok) echo c1) 4 img = Ok rows /\ upper6 rows = upper6 img /\
+    (pc' <- read_png_pixels 160 205 4 rows ;; game_of_png (list tok) model_lex pc') = Ok c2 /\
+    lex_write c2 = Ok file2 /\ lex_read file2 = Ok c3 /\ concat (echo l3) = supply_nl (concat (echo l2)) /\
+    P8File.c_gfx c3 = P8File.c_gfx c1 /\ P8File.c_map c3 = P8File.c_map c1 /\
+    P8File.c_gff c3 = P8File.c_gff c1 /\ P8File.c_music c3 = P8File.c_music c1 /\
+    P8File.c_sfx c3 = P8File.c_sfx c1 /\ P8File.c_version c3 = P8File.c_version c1.
+Proof. exact chain_lexer_cr. Qed.
+Print Assumptions C04_p8_png_p8_lexer_cr.
+
+(* non-vacuity: a concrete cart lexed from a two-line program with a string, a comment with glyph bytes and no
+   final newline, and a blank label image, meet every hypothesis of C04_p8_png_p8_lexer *)
+Definition ex_src : list Z := [45; 45; 32; 128; 255; 10] ++ unBS "s=""a\65"" print(s)"%bs.
+Definition ex_toks : list tok := match model_lex [ex_src] with Ok ts => ts | Err _ => [] end.
+Definition ex_cart : lex_cart :=
+  {| P8File.c_version := 41; P8File.c_lua := ex_toks;
+     P8File.c_gfx := repeat 7 (Z.to_nat 8192); P8File.c_label := None;
+     P8File.c_gff := repeat 255 256; P8File.c_map := repeat 3 (Z.to_nat 4096); P8File.c_sfx := repeat 9 4352;
+     P8File.c_music := repeat 200 256 |}.
+Definition ex_img : list (list Z) := repeat (repeat 0 640) 205.
+
+Example C04_chain_lexer_nonvacuous :
+  let T0 := concat (echo (P8File.c_lua ex_cart)) in
+  (P8FileWrite.wf_cart (list tok) echo ex_cart /\ from_lexer ex_cart) /\
+  (no_cr T0 = true /\ code_in_format T0 = true /\ P8File.c_version ex_cart < 256) /\
+  (wf_img ex_img /\ fits (supply_nl T0) /\ no_nul T0) /\
+  T0 = [45; 45; 32; 128; 255; 10] ++ unBS "s=""aA"" print(s)"%bs.
+Proof.
+  cbv zeta. split; [split|split; [|split]].
+  - unfold P8FileWrite.wf_cart. cbn [P8File.c_version P8File.c_gfx P8File.c_gff P8File.c_map P8File.c_sfx P8File.c_music
+      P8File.c_label P8File.c_lua ex_cart].
+    split; [lia|]. split; [apply repeat_length|]. split; [apply repeat_length|]. split; [apply repeat_length|].
+    split; [apply repeat_length|]. split; [apply repeat_length|].
+    split; [apply all_bytes_Forall; vm_compute; reflexivity|]. split; [apply all_bytes_Forall; vm_compute; reflexivity|].
+    split; [apply all_bytes_Forall; vm_compute; reflexivity|]. split; [apply all_bytes_Forall; vm_compute; reflexivity|].
+    split; [apply all_bytes_Forall; vm_compute; reflexivity|]. split; [exact I|].
+    apply Forall_concat_bytes, all_bytes_Forall. vm_compute. reflexivity.
+  - exists [ex_src]. split; [constructor | vm_compute; reflexivity].
+  - split; [vm_compute; reflexivity|]. split; [vm_compute; reflexivity | vm_compute; reflexivity].
+  - split; [|split].
+    + split; [apply repeat_length|]. unfold ex_img, wf_rows. apply Forall_forall. intros r Hr. apply repeat_spec in Hr. subst r.
+      split; [apply repeat_length | apply all_bytes_Forall; vm_compute; reflexivity].
+    + eexists. split; [vm_compute; reflexivity|]. left. vm_compute. discriminate.
+    + unfold no_nul. apply Forall_forall. intros x Hx. vm_compute in Hx. intuition lia.
+  - vm_compute. reflexivity.
+Qed.
